@@ -213,9 +213,23 @@ class Repository:
         finally:
             self._slots.put_nowait(slot)
 
+    def _run_coroutine_threadsafe(self, coroutine, /, *, loop):
+        future = asyncio.run_coroutine_threadsafe(coroutine, loop)
+        # If the command has already failed, the loop may stop (and get closed) before
+        # it gets to our coroutine; nobody would ever complete the future then, and a
+        # thread that waits for it indefinitely keeps the interpreter from exiting
+        while True:
+            done, _ = concurrent.futures.wait([future], timeout=1)
+            if done:
+                return future.result()
+            if loop.is_closed():
+                raise exceptions.ReplicatError(
+                    'Event loop was closed before the call could be made'
+                )
+
     @contextmanager
     def _acquire_slot_threadsafe(self, *, loop):
-        slot = asyncio.run_coroutine_threadsafe(self._slots.get(), loop).result()
+        slot = self._run_coroutine_threadsafe(self._slots.get(), loop=loop)
         try:
             yield slot
         finally:
@@ -232,9 +246,7 @@ class Repository:
 
     def _maybe_run_coroutine_threadsafe(self, func, *args, loop, **kwargs):
         if inspect.iscoroutinefunction(func):
-            return asyncio.run_coroutine_threadsafe(
-                func(*args, **kwargs), loop
-            ).result()
+            return self._run_coroutine_threadsafe(func(*args, **kwargs), loop=loop)
         else:
             return func(*args, **kwargs)
 
